@@ -338,7 +338,9 @@ pub fn gen_c11(sh: &mut Shards, o: &Opts) -> serde_json::Value {
     for (w, h) in sizes(o) {
         for &(sx, sy) in &subs {
             k += 1;
-            let c = Cfg { mc: MC_STD[k % 7], tc: TC_SUP[(k * 5) % 14], cp: CP_SUP[(k * 3) % 11], full: k % 2 == 0, n: 8 + (k % 9) as u8, ssx: sx, ssy: sy };
+            // the other configuration fields are drawn independently (modular counters sharing a factor with the period of
+            // the subsampling list would tie e.g. 4:2:0 to limited range and to three of the nine depths for ever)
+            let c = Cfg { mc: MC_STD[rng.below(7) as usize], tc: TC_SUP[rng.below(14) as usize], cp: CP_SUP[rng.below(11) as usize], full: rng.below(2) == 0, n: 8 + rng.below(9) as u8, ssx: sx, ssy: sy };
             let div = w % (1 << sx) == 0 && h % (1 << sy) == 0;
             // sources in YUV need a well-formed frame; encoders are only asked for sizes that can exist
             if div {
